@@ -53,6 +53,7 @@ structure Operand where
   on : Option E                  -- that Join's condition
   target : Option String         -- models: `to_predict` (first element), as in the catalog
   inner : Nat := 1               -- sub-select operands: number of steps of the sub-select's own plan
+  integ : String := ""           -- tables: the (lower-cased) integration the fetch is sent to
 deriving Repr, Inhabited
 
 /-- ASCII lower-casing (Python's `str.lower` on ASCII text), written so that `decide` can evaluate it -/
@@ -84,19 +85,34 @@ def lookupFrom (ops : List Operand) (q : List String) (i : Nat) : Option Nat :=
 /-- `get_table_for_column` on an identifier with qualifier `q` (already lower-cased inside) -/
 def tableFor (ops : List Operand) (q : List String) : Option Nat := lookupFrom ops (q.map lower) 0
 
+/-- `_check_identifiers`: the shortest alias of operand `i` that still resolves to `i` in `tables_idx`
+(a shorter one may be taken by the alias of a later operand) -/
+def shortName (ops : List Operand) (i : Nat) : List String :=
+  (((aliasesOf (ops.getD i default)).reverse.find? fun a => lookupFrom ops a 0 = some i)).getD []
+
+/-- `model JOIN table`: the two operands are swapped -/
+def isSwap (ops : List Operand) : Bool :=
+  match ops with
+  | [a, _] => a.kind = .mod
+  | _ => false
+
+/-- `join_condition` of operand `i`: in the swap the model operand also gets the Join's ON clause -/
+def effOn (ops : List Operand) (i : Nat) : Option E :=
+  if isSwap ops ∧ i = 0 then (ops.getD 1 default).on else (ops.getD i default).on
+
 def tableOfE (ops : List Operand) : E → Option Nat
   | .col q _ => tableFor ops q
   | _ => none
 
 /-! ## `_check_identifiers` -/
 
-/-- rewrite every qualified identifier to `aliases[-1] + [col]`; `none` = PlanningException -/
+/-- rewrite every qualified identifier to `shortest still-resolving alias + [col]`; `none` = PlanningException -/
 def rewrite (ops : List Operand) : E → Option E
   | .col q n =>
     if q.isEmpty then some (.col q n) else
     match tableFor ops q with
     | none => none
-    | some i => some (.col (lastAlias (ops.getD i default)) n)
+    | some i => some (.col (shortName ops i) n)
   | .bin op l r => do let l' ← rewrite ops l; let r' ← rewrite ops r; pure (.bin op l' r')
   | .btw a b c => do let a' ← rewrite ops a; let b' ← rewrite ops b; let c' ← rewrite ops c; pure (.btw a' b' c')
   | .un op e => do let e' ← rewrite ops e; pure (.un op e')
@@ -447,10 +463,25 @@ def whereFilters (ops : List Operand) (j : Nat) (w : Option E) : List E :=
   | none => []
   | some w => if (opsOf w).contains "or" then [] else conditionsOf ops j w
 
+/-- `prepare_integration_select` on the fetch query: a leading integration name is cut from an identifier,
+unless the identifier has just two parts and the name is also a table alias of that query -/
+def cutDb (db : String) (locals : List String) : E → E
+  | .col q n =>
+    match q with
+    | q0 :: rest => if lower q0 = db ∧ (rest ≠ [] ∨ ¬ locals.contains db) then .col rest n else .col q n
+    | [] => .col q n
+  | .bin op l r => .bin op (cutDb db locals l) (cutDb db locals r)
+  | .btw a b c => .btw (cutDb db locals a) (cutDb db locals b) (cutDb db locals c)
+  | .un op e => .un op (cutDb db locals e)
+  | .fn nm a => .fn nm (cutDb db locals a)
+  | .acons h t => .acons (cutDb db locals h) (cutDb db locals t)
+  | e => e
+
 def processTable (ops : List Operand) (j : Nat) (w : Option E) (st : St) : St :=
   let o := ops.getD j default
   let (st1, fs) := onFilters ops j o.on st
-  let (st2, r) := addPlanStep st1 (.fetch j (andAll (whereFilters ops j w ++ fs)))
+  let locals := match o.alias with | some a => [lower (a.getLast?.getD "")] | none => []
+  let (st2, r) := addPlanStep st1 (.fetch j ((andAll (whereFilters ops j w ++ fs)).map (cutDb o.integ locals)))
   { st2 with stack := r :: st2.stack, fetched := (j, r) :: st2.fetched }
 
 inductive Err where
@@ -477,7 +508,7 @@ def predictorArgs (ops : List Operand) (i : Nat) (w : Option E) (using? : Option
     Option (List (String × String)) × Option (List (String × String)) × Option String × Option (List (String × E)) :=
   let o := ops.getD i default
   let (ps, sz) := modelParams (aliasesOf o) using?
-  (rowDict ops i o.target w, ps, sz, o.on.map (colMap ops i))
+  (rowDict ops i o.target w, ps, sz, (effOn ops i).map (colMap ops i))
 
 def processPredictor (ops : List Operand) (i : Nat) (w : Option E) (using? : Option (List (String × String)))
     (st : St) : Except Err St :=
@@ -491,6 +522,7 @@ def processPredictor (ops : List Operand) (i : Nat) (w : Option E) (using? : Opt
 /-- ON condition of operand `k` as the JoinStep sees it (neutralised when `k` is a model) -/
 def onAfter (ops : List Operand) (k : Nat) : Option E :=
   let o := ops.getD k default
+  if isSwap ops ∧ k = 1 then o.on.map (neut (mapped ops 0)) else
   match o.kind with
   | .mod => o.on.map (neut (mapped ops k))
   | _ => o.on
